@@ -393,13 +393,19 @@ def run(R, replay=None):
         open(os.path.join(d, "legacy", "mod.py"), "w").write("import marshal\n")
         git(d, "add", ".")
         git(d, "commit", "-q", "-m", "one")
+        open(os.path.join(d, "moved_from.py"), "w").write("import shelve\nzz_keep = 'a file long enough for git to recognise it after a rename'\n" * 3)
+        git(d, "add", ".")
+        git(d, "commit", "-q", "--amend", "-m", "one")
         git(d, "rm", "-q", "-r", "old.py", "legacy")
+        git(d, "mv", "moved_from.py", "moved_to.py")      # the parent tracks moved_from.py, the current commit has it under another name
         open(os.path.join(d, "b.py"), "w").write("x = 1\n")
         git(d, "add", ".")
         git(d, "commit", "-q", "-m", "two")
     for name, fn, ignored in (("untracked-scratch-file", "scratch.txt", False), ("untracked-file-tracked-in-parent", "old.py", False),
                               ("ignored-file", "notes.log", True), ("ignored-file-tracked-in-parent", "old.py", True),
-                              ("untracked-directory-tracked-in-parent", "legacy/mod.py", False), ("untracked-directory", "scratchdir/x.txt", False)):
+                              ("untracked-directory-tracked-in-parent", "legacy/mod.py", False), ("untracked-directory", "scratchdir/x.txt", False),
+                              ("untracked-file-at-the-old-name-of-a-renamed-file", "moved_from.py", False),
+                              ("ignored-file-at-the-old-name-of-a-renamed-file", "moved_from.py", True)):
         k += 1
         repo = os.path.join(base, "u%d" % k)
         repo_with_removed_file(repo)
